@@ -188,6 +188,8 @@ int __real_pthread_spin_unlock(pthread_spinlock_t *);
 
 void sync_log(const char *op, int obj);
 int simk_nthreads(void) { return nth; }
+/* can thread t get to a signal-delivery point (it runs or sits in a wait)? */
+int simk_thread_takes_signals(int t) { return t >= 0 && t < nth && (T[t].st == ST_RUN || T[t].st == ST_WAIT); }
 int simk_wait_count(void) { return nwaits; }
 void simk_set_schedule(const int *s, int n) { schedv = s; schedn = n; schedi = 0; }
 void simk_set_sticky(int n) { sticky = n; }
